@@ -395,9 +395,35 @@ pub fn line_text_pairs(rng: &mut Rng, thorough: bool) -> Vec<(Vec<u8>, Vec<u8>)>
     v
 }
 
+/// the one-call helper `udiff::unified_diff(alg, old, new, n, header)` as a udiff record
+fn helper_udiff_record(case: i64, alg: Algorithm, radius: usize, header: bool, old: &str, new: &str) -> Value {
+    let run = |repair: bool| {
+        similar::verif_hooks::set_swap_repair(repair);
+        let r = rec::guarded(|| {
+            similar::udiff::unified_diff(alg, old, new, radius, if header { Some(("a", "b")) } else { None }).into_bytes()
+        });
+        similar::verif_hooks::set_swap_repair(false);
+        r
+    };
+    let plain = run(false);
+    let rep = run(true);
+    let w = plain.clone().unwrap_or_default();
+    json!({"ev":"udiff","case":case,"alg":alg_name(alg),"mode":"str","via":"unified_diff()","radius":radius,"header":header,
+        "hint":true,"old":bytes_json(old.as_bytes()),"new":bytes_json(new.as_bytes()),"swaps":0,"utf8":true,
+        "panic":plain.is_none(),"out_w":bytes_json(&w),"out_d":bytes_json(&w),"lossy_w":bytes_json(&w),
+        "hunks_w": if header && !w.is_empty() { bytes_json(&w[12..]) } else { bytes_json(&w) },
+        "ops":[],"rep_panic":rep.is_none(),"out_w_rep":bytes_json(&rep.unwrap_or_default())})
+}
+
 pub fn drive_c05(a: &Args, out: &mut Out) {
     let mut rng = Rng::new(a.num("seed", 1));
     let pairs = line_text_pairs(&mut rng, a.thorough());
+    for (i, (x, y)) in pairs.iter().enumerate().step_by(5) {
+        if let (Ok(xs), Ok(ys)) = (std::str::from_utf8(x), std::str::from_utf8(y)) {
+            let case = out.next_case();
+            out.emit(&helper_udiff_record(case, ALGS[i % 3], [0usize, 1, 3][i % 3], i % 2 == 0, xs, ys));
+        }
+    }
     for (i, (x, y)) in pairs.iter().enumerate() {
         let alg = ALGS[i % 3];
         let radius = [0usize, 1, 3, 0, 2][i % 5];
